@@ -95,7 +95,9 @@ MOne(s, c, p) ==
                           \* a reference that a "//" separator may follow contains no "//" itself
                           /\ (c.ch = "nodbl" => \A i \in p..(q - 2) : ~(s[i] = "/" /\ s[i + 1] = "/"))}
     [] c.k = "lit"  -> IF p <= Len(s) /\ s[p] = c.ch THEN {p + 1} ELSE {}
-    [] c.k = "nl"   -> IF p <= Len(s) /\ s[p] = "\n" THEN {p + 1} ELSE {}
+    \* a line ends with LF or with CR LF (the library documents both); a stray CR is no line end and no x character
+    [] c.k = "nl"   -> (IF p <= Len(s) /\ s[p] = "\n" THEN {p + 1} ELSE {})
+                       \cup (IF p + 1 <= Len(s) /\ s[p] = "\r" /\ s[p + 1] = "\n" THEN {p + 2} ELSE {})
     [] c.k = "opt"  -> {p} \cup MSeq(s, c.body, 1, {p})
     [] c.k = "alt"  -> UNION {MSeq(s, c.alts[a], 1, {p}) : a \in 1..Len(c.alts)}
     [] c.k = "sem"  -> SemEnds(s, c.cls, c.max, p)
@@ -109,6 +111,7 @@ MLines(s, c, P, n) ==
   ELSE LET Q == MSeq(s, c.body, 1, P)
            done == IF n >= c.min THEN Q ELSE {}
            next == {q + 1 : q \in {r \in Q : r <= Len(s) /\ s[r] = "\n"}}
+                   \cup {q + 2 : q \in {r \in Q : r + 1 <= Len(s) /\ s[r] = "\r" /\ s[r + 1] = "\n"}}
        IN done \cup MLines(s, c, next, n + 1)
 
 NoSlashEdge(s) == /\ Len(s) > 0 /\ s[1] # "/" /\ s[Len(s)] # "/"
@@ -232,15 +235,18 @@ Vars(c) ==
            \cup (IF c.cls = "x" /\ Len(t) >= 3
                  THEN {V("mid=" \o ch, [t EXCEPT ![Mid(t)] = ch]) : ch \in {" ", ":", "/", ","}} ELSE {})
     [] c.k = "lit"   -> {V("lit-missing", <<>>), V("lit-wrong", <<"X">>), V("lit-doubled", <<c.ch, c.ch>>)}
-    [] c.k = "nl"    -> {V("nl-missing", <<>>), V("nl-space", <<" ">>), V("nl-doubled", <<"\n", "\n">>)}
+    [] c.k = "nl"    -> {V("nl-missing", <<>>), V("nl-space", <<" ">>), V("nl-doubled", <<"\n", "\n">>),
+                         V("nl-crlf", <<"\r", "\n">>), V("nl-crcrlf", <<"\r", "\r", "\n">>)}
     [] c.k = "opt"   -> {V("absent", <<>>)} \cup Pre("opt.", VarsSeq(c.body, 1))
     [] c.k = "alt"   -> {V("alt" \o ToString(a), TypSeq(c.alts[a], 1)) : a \in 2..Len(c.alts)}
-                        \cup Pre("alt1.", VarsSeq(c.alts[1], 1))
+                        \cup UNION {Pre("alt" \o ToString(a) \o ".", VarsSeq(c.alts[a], 1)) : a \in 1..Len(c.alts)}
     [] c.k = "sem"   -> {V(c.cls \o ToString(i), SemVar(c.cls)[i]) : i \in 1..Len(SemVar(c.cls))}
                         \* an amount / rate as long as its component allows, and one character longer
                         \cup (IF c.cls \in {"AMT", "AMT0"}
                               THEN {V(c.cls \o "-max", Run("n", c.max - 1) \o <<",">>),
                                     V(c.cls \o "-max+1", Run("n", c.max) \o <<",">>)} ELSE {})
+                        \* an amount in canonical spelling (two decimals) that fills its component exactly and ends in 0
+                        \cup (IF c.cls = "AMT" /\ c.max = 15 THEN {V("AMT-maxc", Run("n", c.max - 3) \o <<",", "3", "0">>)} ELSE {})
     [] c.k = "code"  -> {V("code-other", w) : w \in (c.set \ {Typ(c)})}
                         \cup {V("code-unknown", <<"Z", "Z", "Z", "Z">>), V("code-lower", WithLast(Typ(c), "z")),
                               V("code-long", Typ(c) \o <<"X">>)}
@@ -249,6 +255,8 @@ Vars(c) ==
            (IF c.cls = "single" THEN {}
             ELSE {V("1line", NLines(c, 1, t)), V("maxlines", NLines(c, c.max, t)), V("maxlines+1", NLines(c, c.max + 1, t))})
            \cup Pre("line1.", {V(v.l, NLines(c, (IF c.max >= 2 /\ c.cls # "single" THEN 2 ELSE 1), v.s)) : v \in VarsSeq(c.body, 1)})
+           \cup (IF c.max >= 2 /\ c.cls # "single"
+                 THEN {V("crlf-middle", t \o <<"\r", "\n">> \o t), V("crcrlf-middle", t \o <<"\r", "\r", "\n">> \o t)} ELSE {})
            \cup {V("trailing-nl", t \o <<"\n">>), V("blank-middle", t \o <<"\n", "\n">> \o t),
                  V("blank-first", <<"\n">> \o t), V("no-line", <<>>)}
            \* the LAST of the maximal number of lines at and beyond its own limits (a check that stops one
@@ -297,6 +305,9 @@ ChoicePairs(f) ==
 Contents(f) == GenSeq(f.fmt, 1, Budget) \cup NoParts(Trailing(TypSeq(f.fmt, 1))) \cup NoParts(ChoicePairs(f))
 
 (* -------------------------------- formats -------------------------------- *)
+\* party identifier as every field documents it: [/1!a][/34x].  (The helper field_utils::parse_party_identifier also
+\* names a form /2!a/34x; within 34 characters that is a /34x -- a slash is an ordinary character of the x set -- and
+\* beyond 34 characters no field's Format line admits it.)
 PI       == Alt(<< <<Lit("/"), Cl("a", 1, 1), Lit("/"), Cl("x", 1, 34)>>, <<Lit("/"), Cl("x", 1, 34)>> >>)
 PILine   == Opt(<<PI, NL>>)
 Acct     == Opt(<<Lit("/"), Cl("x", 1, 34), NL>>)
@@ -306,7 +317,9 @@ Name4    == Lines(1, 4, <<Cl("x", 1, 35)>>)
 Numbered == [Lines(1, 4, <<Lit("1"), Lit("/"), Cl("x", 1, 33)>>) EXCEPT !.cls = "single"]
 Balance  == <<Sem("DC", 1), Sem("DATE", 6), Sem("CUR", 3), Sem("AMT", 15)>>
 \* options B: [/1!a][/34x] CRLF [35x] -- identifier and location, identifier alone, location alone
-PartyLoc == <<AltId(<< <<PI, NL, Cl("x", 1, 35)>>, <<PI>>, <<Cl("x", 1, 35)>> >>, 2)>>
+\* (both parts are optional in the notation, and the library documents and unit-tests the field without either as
+\* accepted: the fourth alternative)
+PartyLoc == <<AltId(<< <<PI, NL, Cl("x", 1, 35)>>, <<PI>>, <<Cl("x", 1, 35)>>, <<>> >>, 2)>>
 
 \* "idline": the format starts with an optional account line [/34x] on a line of its own
 First(fmt) == IF fmt[1].k = "opt" /\ Len(fmt[1].body) = 3 /\ fmt[1].body[1].k = "lit" /\ fmt[1].body[3].k = "nl"
@@ -413,8 +426,8 @@ Spec == Init /\ [][Next]_vars
 
 (* oracle sanity: the typical content of every format is in its language *)
 TypicalAccepted == InLanguage(fld, TypSeq(fld.fmt, 1))
-(* nothing in the language is empty *)
-NonEmpty == InLanguage(fld, content.s) => Len(content.s) > 0
+(* nothing in the language is empty (options B aside, whose notation admits the empty field) *)
+NonEmpty == (InLanguage(fld, content.s) /\ fld.fmt # PartyLoc) => Len(content.s) > 0
 
 Emit == EmitCases => PrintT(ToJson([tag |-> fld.tag, l |-> content.l, s |-> content.s, p |-> content.p,
                                     accept |-> InLanguage(fld, content.s), amt |-> fld.amt, first |-> First(fld.fmt),
